@@ -280,6 +280,12 @@ class URLInfo(object):
             raise ValueError('Invalid IPv6 address: {}'
                              .format(ascii(hostname)))
 
+        if '%' in hostname:
+            # Zone identifiers are not supported; newer versions of
+            # ipaddress accept them with arbitrary characters.
+            raise ValueError('Invalid IPv6 address: {}'
+                             .format(ascii(hostname)))
+
         hostname = ipaddress.IPv6Address(hostname[1:-1]).compressed
 
         return hostname
